@@ -800,7 +800,7 @@ func replay(raw json.RawMessage) vdrv.Verdict {
 }
 
 func runMaps(t *testing.T) {
-	H.Rule("maps", "rapid (unbiased draws): 1–4 files in which every identifier (declarations, parameters, property keys, member names, class members, private names, labels, destructuring, catch bindings, arrow parameters; plain, with a non-ASCII / astral / escaped suffix), string, template head and number is a unique marker, printed with adversarial layout (tabs, LF / CRLF / lone CR / U+2028 / U+2029 between tokens, in comments and raw inside string and template literals, line continuations, NBSP / ZWNBSP / U+3000 / VT / FF, long comments, astral and combining characters before markers on the same line, BOM), single-file and bundled × source map mode {inline, linked, external, both} × sourcesContent on/off × minify {none, whitespace, identifiers, syntax, all} × charset {default, utf8, ascii} × splitting with chunk name templates × banner / footer (multi-line, CR, U+2028, astral) × sourceRoot × format × composition (a) through a first esbuild pass with inline maps, (b) through a compilation step of the generator's own: the tokens of one or two originals are printed again with another layout (re-indent, join, split, header) and the exact map G→O is written by the generator (dense / markers only / mixed, with or without names, sourcesContent all / none / null, sourceRoot, plain or index map with sections, reversed sources, ASCII-escaped JSON) and attached inline (data: URL) or as a sibling / sub-directory .map file on a real scratch tree. Oracle: an independent VLQ/source-map reader (smref) and tokenizer (jsref): map well-formed (version 3, sorted, indices in range, sources/sourcesContent arity, no segment beyond the end of its generated line or outside its source, not more lines than the file); sourceMappingURL comment present exactly as the mode says (a real line comment; inline: no .map file; external: none); sourceRoot recorded; every source resolves (relative to the map) to an original and sourcesContent[i] equals its text; every segment that starts at a marker token of the output maps to the start of the same marker in the named ORIGINAL file (UTF-16 columns, ECMAScript line terminators); an identifier token whose segment carries a marker name must map to that very identifier, and a name on a kept marker must be its own; no segment starts inside a marker token. Not judged: segments that do not start at a token, non-marker tokens, literals printed at the use of an inlined constant. Pre-step cases are validated first (every marker of G has an exact input segment) and discarded otherwise. Non-trivial = ≥5 verified marker segments with ≥1 after non-ASCII text on its original or generated line or from a second source")
+	H.Rule("maps", "rapid (unbiased draws): 1–4 files in which every identifier (declarations, parameters, property keys, member names, class members, private names, labels, destructuring, catch bindings, arrow parameters; plain, with a non-ASCII / astral / escaped suffix), string, template head and number is a unique marker, printed with adversarial layout (tabs, LF / CRLF / lone CR / U+2028 / U+2029 between tokens, in comments and raw inside string and template literals, line continuations, NBSP / ZWNBSP / U+3000 / VT / FF, long comments, legal comments, a regular expression with astral text, astral and combining characters before markers on the same line, BOM or hashbang), no exports or import aliases, single-file and bundled × source map mode {inline, linked, external, both} × sourcesContent on/off × minify {none, whitespace, identifiers, syntax, all} × charset {default, utf8, ascii} × splitting with chunk name templates × banner / footer (multi-line, CR, U+2028, astral) × sourceRoot × format × composition (a) through a first esbuild pass with inline maps, (b) through a compilation step of the generator's own: the tokens of one or two originals are printed again with another layout (re-indent, join, split, header with or without BOM; optionally every marker identifier renamed mk5_0→r5_0 with the original in `names`; optionally a stretch of code of the step's own that a one-field segment leaves unmapped) and the exact map G→O is written by the generator (dense / markers only / mixed, with or without names, sourcesContent all / none / null, sourceRoot, plain or index map with sections, reversed sources, segments of a line in reverse order, ASCII-escaped JSON) and attached inline (data: URL) or as a sibling / sub-directory .map file on a real scratch tree. Oracle: an independent VLQ/source-map reader (smref) and tokenizer (jsref): map well-formed (version 3, sorted, indices in range, sources/sourcesContent arity, no segment beyond the end of its generated line or outside its source, not more lines than the file); sourceMappingURL comment present exactly as the mode says (a real line comment; inline: no .map file; external: none); sourceRoot recorded; every source resolves (relative to the map) to an original and sourcesContent[i] equals its text; every segment that starts at a marker token of the output maps to the start of the same marker in the named ORIGINAL file (UTF-16 columns, ECMAScript line terminators); an identifier token whose segment carries a marker name must map to that very identifier (an intermediate name r5_0 is wrong), and a name on a kept marker must be its own; every marker string / template is covered: the segment that governs its start (last one at or before it on the line) maps to its origin; code that an input map leaves unmapped must not be given an origin (known finding C07-unmapped-input-segment-ignored, excluded by that signature only); no segment starts inside a marker token. Not judged: segments that do not start at a token, non-marker tokens, literals printed at the use of an inlined constant. Pre-step cases are validated first (every marker of G has an exact input segment) and discarded otherwise. Non-trivial = ≥5 verified marker segments with ≥1 after non-ASCII text on its original or generated line or from a second source")
 	H.SetupRapid("maps", H.N(2500, 120000))
 	rapid.Check(t, func(rt *rapid.T) {
 		c := genCase(rt)
@@ -809,7 +809,7 @@ func runMaps(t *testing.T) {
 	})
 }
 
-var subs = map[string]vdrv.ReplayFunc{"maps": replay}
+var subs = map[string]vdrv.ReplayFunc{"maps": replay, "css": replayCSS}
 
 func TestCheck(t *testing.T) {
 	H = vdrv.New("C07")
@@ -818,6 +818,7 @@ func TestCheck(t *testing.T) {
 	defer fsgen.RemoveScratch()
 	H.RunReplays(t, subs)
 	H.Sub(t, "maps", runMaps)
+	H.Sub(t, "css", runCSS)
 	complete = true
 }
 
